@@ -190,7 +190,13 @@ def g_store(g):
 
 def g_state(st):
     """st: dict (n, k) -> int | None (device error)"""
-    items = ["E %d %d (%s)" % (n, k, "Err 30" if v is None else "Ok %s" % zl(v)) for (n, k), v in sorted(st.items())]
+    def oc(v):
+        if v is None:
+            return "Err 30"
+        if isinstance(v, tuple):
+            return "Err %d" % v[1]
+        return "Ok %s" % zl(v)
+    items = ["E %d %d (%s)" % (n, k, oc(v)) for (n, k), v in sorted(st.items())]
     return "[" + "; ".join(items) + "]"
 
 
@@ -240,6 +246,8 @@ class Sim:
         v = self.st[(n, k)]
         if v is None:
             raise EvalError(30)
+        if isinstance(v, tuple):
+            raise EvalError(v[1])
         return v
 
     def iop(self, n, e, slot):
@@ -267,9 +275,41 @@ class Sim:
                 return self.num(v[1])
             e, slot = self.select(n)
             return self.iop(n, e, slot)
-        if k in ("IntReg", "MaskedIntReg", "FloatReg", "IntConverter", "IntSwissKnife", "Converter", "SwissKnife"):
+        if k in ("IntReg", "MaskedIntReg", "FloatReg"):
             return self.leaf(n, 0)
+        if k in ("IntSwissKnife", "SwissKnife"):
+            for m in nd["vars"]:             # the formula is the constant 1, but every variable is collected first
+                self.var_value(m)
+            return 1
+        if k in ("IntConverter", "Converter"):
+            raise Unsupported()              # formulas over pValue: not simulated
         raise EvalError(32)
+
+    def var_value(self, m):
+        k = self.g[m]["kind"]
+        if k in INT_KINDS or k in FLOAT_KINDS:
+            return self.num(m)
+        if k == "Boolean":
+            return 1 if self.boolean(m) else 0
+        if k == "Enumeration":
+            v = self.num(m)
+            if v not in self.g[m]["entries"]:
+                raise EvalError(32)
+            return v
+        raise EvalError(32)
+
+    def snapshot(self):
+        """the state as the model takes it: slots and registers, plus the current formula result of swiss knives"""
+        st = dict(self.st)
+        for i, nd in enumerate(self.g):
+            if nd["kind"] in ("IntSwissKnife", "SwissKnife"):
+                try:
+                    st[(i, 0)] = self.num(i)
+                except EvalError as e:
+                    st[(i, 0)] = ("err", e.cls)
+                except Unsupported:
+                    st[(i, 0)] = 1           # never consulted: the case is dropped when such a value is needed
+        return st
 
     def boolean(self, n):
         nd = self.g[n]
@@ -319,6 +359,8 @@ class Sim:
             if not 0 <= v < 256:
                 raise Unsupported()
             self.st[(n, 0)] = v
+        elif k in ("IntSwissKnife", "SwissKnife"):
+            raise EvalError(31)
         elif k in NUMERIC:
             raise Unsupported()      # converters: formulas are not simulated
         else:
